@@ -81,10 +81,10 @@ def planted_partitions(rng, count, maxitems=300):
 
 
 def pack_families(rng, count, maxn=12, minv=0):
-    """bin-packing inputs beyond the exhaustive scope: uniform, small-items, triplet (C/4<v<C/2), half-size, exact fills"""
+    """bin-packing inputs beyond the exhaustive scope: uniform, small-items, triplet (C/4<v<C/2), half-size, exact fills, C/5..2C/3, C/6..C/2"""
     out = []
     for i in range(count):
-        kind = i % 6
+        kind = i % 7
         C = rng.choice([9, 10, 15, 20, 50, 100])
         n = rng.randint(6, maxn)
         lo = max(minv, 1 if kind else minv)
@@ -108,8 +108,12 @@ def pack_families(rng, count, maxn=12, minv=0):
                 if rest >= lo and rest > 0:
                     vals.append(rest)
             vals = [v for v in vals if v >= minv][:maxn]
-        else:
+        elif kind == 5:
             vals = [rng.randint(max(lo, C // 5), (2 * C) // 3) for _ in range(n)]
+        else:             # several items per bin, exact fills possible but not always right: the search has to branch
+            C = rng.choice([12, 16, 20, 25, 30])
+            n = rng.randint(min(8, maxn), maxn)
+            vals = [rng.randint(max(lo, C // 6), C // 2) for _ in range(n)]
         rng.shuffle(vals)
         out.append({"vals": vals, "C": C})
     return out
